@@ -275,8 +275,80 @@ fn run_impl(text: String, origin: Option<Name>) -> Ran {
     rx.recv_timeout(Duration::from_secs(WATCHDOG_S)).unwrap_or(Ran::Hang)
 }
 
+/// `RecordType::from_str` / `DNSClass::from_str` start with
+/// `debug_assert!(no ASCII lower-case letter)`; two callers do not upper-case first (known finding
+/// `mnemonic-case-debug-assert`): the type list of CSYNC, and class / type in the trust-anchor parser.
+/// Class predicate for a zone text: the mnemonic CSYNC is followed by a lower-case letter.
+fn csync_lowercase_item(text: &str) -> bool {
+    // (the lexer can cut items where white space does not, e.g. `"0"a`: any lower-case letter after the mnemonic)
+    match text.to_ascii_uppercase().find("CSYNC") {
+        Some(k) => text[k + 5..].chars().any(|c| c.is_ascii_lowercase()),
+        None => false,
+    }
+}
+
+/// `tanchor <text-hex>` : `serialize::txt::trust_anchor::Parser::new(text).parse()` — the other
+/// parser in serialize/txt; no model side; oracle: Ok or Err, never a panic or a hang.
+/// `zonep <path-hex> <origin|-> <text-hex>` : the zone parser with `path = Some(..)` (for `$INCLUDE`).
+fn exec_other(t: &[&str], line: &str, rec: &mut Recorder) {
+    let text_tok = if t[0] == "tanchor" { t.get(1) } else { t.get(3) };
+    let Some(bytes) = text_tok.and_then(|x| unhex(x)) else { return rec.stat("skipped.unparsable-case") };
+    let Ok(text) = String::from_utf8(bytes) else { return rec.stat("skipped.not-utf8") };
+    rec.announce(line);
+    let (tx, rx) = mpsc::channel();
+    let op = t[0].to_string();
+    let path = if op == "zonep" { unhex(t[1]).and_then(|b| String::from_utf8(b).ok()) } else { None };
+    let origin = if op == "zonep" && t[2] != "-" { parse_name(t[2]) } else { None };
+    if op == "zonep" && !(include_is_safe(&text) && path.as_deref().map(|p| p.is_empty() || p == "/" || p.starts_with("/nonexistent-c20")).unwrap_or(false)) {
+        return rec.stat("skipped.include-of-existing-path");
+    }
+    let text2 = text.clone();
+    let _ = std::thread::Builder::new().stack_size(16 << 20).spawn(move || {
+        let r = catch(|| {
+            if op == "tanchor" {
+                hickory_proto::serialize::txt::trust_anchor::Parser::new(text2).parse().map(|_| ()).map_err(|e| err_kind(&e))
+            } else {
+                Parser::new(text2, path.map(std::path::PathBuf::from), origin).parse().map(|_| ()).map_err(|e| err_kind(&e))
+            }
+        });
+        let _ = tx.send(r);
+    });
+    let idx = rec.case(line.to_string(), "~".into());
+    rec.impl_only += 1;
+    rec.stat(&format!("op.{}", t[0]));
+    match rx.recv_timeout(Duration::from_secs(WATCHDOG_S)) {
+        Err(_) => {
+            let _ = std::fs::write(rec.out_dir.join("HANG.case"), format!("{line}\n"));
+            eprintln!("HANG: no result within {WATCHDOG_S} s on: {}", &line[..line.len().min(300)]);
+            std::process::exit(3);
+        }
+        Ok(Err(p)) => {
+            // the trust-anchor parser's only calls of the two from_str are the un-upper-cased ones
+            let class = if t[0] == "tanchor" && p.contains("is_ascii_lowercase") && text.chars().any(|c| c.is_ascii_lowercase()) {
+                "mnemonic-case-debug-assert"
+            } else if t[0] == "zonep" && p.contains("parent folder") && text.to_ascii_uppercase().contains("$INCLUDE") {
+                "include-path-without-parent"
+            } else {
+                ""
+            };
+            rec.fail(idx, format!("panic: {p}"), class)
+        }
+        Ok(Ok(Ok(()))) => rec.stat("outcome.ok"),
+        Ok(Ok(Err(k))) => {
+            rec.stat("outcome.err");
+            rec.stat(&format!("err.{k}"))
+        }
+    }
+    if text.len() >= 10 {
+        rec.nontrivial(idx);
+    }
+}
+
 pub fn exec(line: &str, rec: &mut Recorder) {
     let t: Vec<&str> = line.split_whitespace().collect();
+    if (t.len() >= 2 && t[0] == "tanchor") || (t.len() >= 4 && t[0] == "zonep") {
+        return exec_other(&t, line, rec);
+    }
     if t.len() < 4 || t[0] != "zone" {
         rec.stat("skipped.unparsable-case");
         return;
@@ -318,7 +390,9 @@ pub fn exec(line: &str, rec: &mut Recorder) {
         Ran::Hang => ("hang".to_string(), None, 0),
     };
     let bad = matches!(ran, Ran::Panic(_) | Ran::Hang);
-    let idx = if has_model || bad {
+    // a panic is an oracle failure; it is also a model disagreement when the text has a model side
+    // (the model never panics: theorem no_panic)
+    let idx = if has_model {
         rec.case(line.to_string(), out.clone())
     } else {
         rec.impl_only += 1;
@@ -343,7 +417,10 @@ pub fn exec(line: &str, rec: &mut Recorder) {
     ));
     // ---- the property's oracle, on the implementation's answer only
     match &ran {
-        Ran::Panic(p) => rec.fail(idx, format!("panic: {p}"), ""),
+        Ran::Panic(p) => {
+            let class = if p.contains("is_ascii_lowercase") && csync_lowercase_item(&text) { "mnemonic-case-debug-assert" } else { "" };
+            rec.fail(idx, format!("panic: {p}"), class)
+        }
         Ran::Hang => rec.fail(idx, "hang: no result within 30 s", ""),
         _ => {}
     }
@@ -1559,6 +1636,216 @@ fn paren_edge_case(r: &mut Rng) -> String {
 }
 
 // ------------------------------------------------------------------------------------------------
+// generator: per-type RDATA text fuzz — every record type the zone parser knows, a valid RDATA text
+// mutated at token level with fragments aimed at the mini-grammars of the `from_tokens` parsers
+// (quotes, escapes, `=`, commas, `\DDD`, `\#`, numeric boundaries, over-long tokens, non-ASCII, NUL,
+// keyNNNNN forms, base64 / hex padding).  No expectation: Ok or Err, never a panic or a hang.
+
+const RDATA_SAMPLES: &[(&str, &[&[&str]])] = &[
+    ("A", &[&["1.2.3.4"], &["255.255.255.255"]]),
+    ("AAAA", &[&["2001:db8::1"], &["::ffff:1.2.3.4"], &["1:2:3:4:5:6:7:8"]]),
+    ("ANAME", &[&["host.example.com."]]),
+    ("CNAME", &[&["host"]]),
+    ("NS", &[&["ns1.example.com."]]),
+    ("PTR", &[&["host.example.com."]]),
+    ("MX", &[&["10", "mail.example.com."]]),
+    ("SOA", &[&["ns.example.com.", "admin.example.com.", "2024010101", "7200", "3600", "1209600", "3600"], &["ns", "admin", "1", "1h", "1d", "1w", "60"]]),
+    ("SRV", &[&["1", "2", "443", "target.example.com."]]),
+    ("TXT", &[&["\"a b\"", "c"], &["v=spf1", "-all"]]),
+    ("HINFO", &[&["\"VAX-11/780\"", "UNIX"]]),
+    ("CAA", &[&["0", "issue", "\"ca.example.net; account=230123\""], &["128", "iodef", "mailto:a@b.c"]]),
+    ("CERT", &[&["1", "2", "3", "QUJD", "REVG"], &["65535", "0", "255", "QQ=="]]),
+    ("CSYNC", &[&["66", "3", "A", "NS", "AAAA"], &["0", "0"]]),
+    ("DS", &[&["60485", "5", "1", "2BB183AF5F22588179A53B0A", "98631FAD1A292118"], &["1", "RSASHA1", "2", "aabb"]]),
+    ("CDS", &[&["60485", "5", "1", "2BB183AF5F22588179A53B0A98631FAD1A292118"]]),
+    ("DNSKEY", &[&["256", "3", "8", "AwEAAcw5", "QQ=="]]),
+    ("CDNSKEY", &[&["257", "3", "13", "mdsswUyr3DPW132mOi8V9xESWE8jTo0dxCjjnopKl+GqJxpVXckHAeF+KkxLbxILfDLUT0rAK9iUzy1L53eKGQ=="]]),
+    ("KEY", &[&["256", "3", "8", "AwEAAcw5"]]),
+    ("HTTPS", &[
+        &["1", ".", "alpn=h2,h3", "port=443", "ipv4hint=1.2.3.4,5.6.7.8", "ipv6hint=2001:db8::1,::1"],
+        &["0", "alias.example.com."],
+        &["16", "svc.example.com.", "mandatory=alpn,port", "alpn=\"h2\"", "no-default-alpn", "port=8443", "ech=AEX+DQBB", "key667=hello"],
+        &["1", ".", "alpn=f\\\\\\092oo\\092,bar,h2"],
+    ]),
+    ("SVCB", &[
+        &["1", "svc.example.com.", "key65535=x"],
+        &["1", ".", "key0=a", "key1=h2", "key65534=\"q s\"", "key00001=b"],
+        &["2", "svc.", "ipv4hint=\"1.2.3.4\"", "ipv6hint=\"::1\"", "ech=\"QQ==\""],
+    ]),
+    ("NAPTR", &[&["100", "10", "\"U\"", "\"E2U+sip\"", "\"!^.*$!sip:info@example.com!\"", "."], &["65535", "0", "s", "SIP+D2U", "\"\"", "_sip._udp.example.com."]]),
+    ("NS", &[&["@"]]),
+    ("NULL", &[&["\\#", "2", "0102"]]),
+    ("OPENPGPKEY", &[&["QUJDREU="]]),
+    ("SSHFP", &[&["2", "1", "123456789abcdef67890123456789abcdef67890"]]),
+    ("TLSA", &[&["3", "1", "1", "a1b2c3d4", "e5f6"]]),
+    ("SMIMEA", &[&["0", "0", "1", "00ff"]]),
+    ("NSEC", &[&["next.example.com.", "A", "NS", "RRSIG", "NSEC"]]),
+    ("NSEC3", &[&["1", "0", "10", "AABBCCDD", "2T7B4G4VSA5SMI47K61MV5BV1A22BOJR", "A", "RRSIG"]]),
+    ("NSEC3PARAM", &[&["1", "0", "10", "-"]]),
+    ("RRSIG", &[&["A", "8", "3", "3600", "20300101000000", "20200101000000", "12345", "example.com.", "QUJD", "REVG"]]),
+    ("SIG", &[&["A", "8", "3", "3600", "20300101000000", "20200101000000", "12345", "example.com.", "QUJD"]]),
+    ("TSIG", &[&["hmac-sha256.", "1", "300", "0", "0", "0"]]),
+    ("OPT", &[&["\\#", "0"]]),
+    ("AXFR", &[&[]]),
+    ("IXFR", &[&["1"]]),
+    ("ANY", &[&["x"]]),
+    ("TYPE123", &[&["\\#", "4", "01020304"], &["\\#", "0"]]),
+    ("TYPE1", &[&["\\#", "4", "01020304"]]),
+    ("TYPE65535", &[&["\\#", "1", "00"]]),
+    ("ZERO", &[&[]]),
+    ("A6", &[&["0", "::1"]]),
+];
+
+const FUZZ_FRAGS: &[&str] = &[
+    "\"", "\"\"", "\"\"\"", "\\\"", "\\", "\\\\", "=", "==", "=x", "x=", "=\"", "=\"\"", "=\\", "=,", ",", ",,", ",x", "x,", "\\,", "\\\\,", "\\\\\\,",
+    "\\256", "\\999", "\\1", "\\25", "\\000", "\\255", "\\#", "\\# 3 0102", "\\# 2 010203", "\\# 65536 00", "\\# -1", "\\#4", "(", ")", "( )", ";", "@", "$", "*", ".", "..", "-",
+    "0", "1", "255", "256", "65535", "65536", "4294967295", "4294967296", "2147483647", "2147483648", "18446744073709551616", "-1", "+1", "-0", "00001", "0x10", "1e3", "1.5",
+    "key0", "key65535", "key65536", "key00001", "KEY1", "key", "key-1", "key1=", "key1=\"", "mandatory", "mandatory=", "mandatory=mandatory", "mandatory=key65535", "mandatory=alpn,alpn",
+    "alpn", "alpn=", "alpn=,", "alpn=h2,,h3", "alpn=\\", "alpn=\"h2", "alpn=h2\"", "alpn=\\\"", "alpn=\"", "no-default-alpn=", "no-default-alpn=x", "port", "port=", "port=65536", "port=-1", "port=\"80\"", "port=8 0",
+    "ipv4hint=::1", "ipv6hint=1.2.3.4", "ipv4hint=", "ipv4hint=,", "ipv4hint=1.2.3.4,", "ipv6hint=,::1", "ech", "ech=", "ech=Q", "ech=QQ=", "ech=Q===", "ech==QQ=", "ech=\"", "dohpath=/q{?dns}", "port=1", "port=1 port=2", "alpn=a alpn=b",
+    "QQ=", "Q===", "=QQ=", "QQ==QQ==", "QR==", "abc", "0g", "+f", " ", "\t", "a b", "\u{0}", "\u{1}", "\u{7f}", "\u{e9}", "\u{6f22}", "\u{1F600}", "\u{85}", "\u{a0}", "\u{b2}", "\u{663}", "\u{ff15}",
+    "A", "a", "ns", "NS", "TYPE1", "TYPE0", "TYPE65536", "type1", "CLASS1", "IN", "any", "*",
+];
+
+fn fuzz_token(r: &mut Rng, t: &str) -> String {
+    let frag: String = match r.below(12) {
+        0 => "a".repeat(*r.pick(&[63usize, 64, 255, 256, 65535, 65536])),
+        1 => "1".repeat(*r.pick(&[5usize, 10, 11, 20, 40, 300])),
+        2 => format!("\"{}\"", "q".repeat(*r.pick(&[255usize, 256, 65536]))),
+        _ => r.pick(FUZZ_FRAGS).to_string(),
+    };
+    let chars: Vec<char> = t.chars().collect();
+    let at = |r: &mut Rng| r.below(chars.len() as u64 + 1) as usize;
+    match r.below(9) {
+        0 => frag,
+        1 => format!("{t}{frag}"),
+        2 => format!("{frag}{t}"),
+        3 => {
+            let i = at(r);
+            chars[..i].iter().collect::<String>() + &frag + &chars[i..].iter().collect::<String>()
+        }
+        4 => {
+            // only the value of key=value
+            match t.split_once('=') {
+                Some((k, _)) => format!("{k}={frag}"),
+                None => format!("{t}={frag}"),
+            }
+        }
+        5 => format!("\"{t}\""),
+        6 => {
+            // cut
+            let i = at(r);
+            chars[..i].iter().collect()
+        }
+        7 => {
+            if r.chance(1, 2) { t.to_ascii_lowercase() } else { t.to_ascii_uppercase() }
+        }
+        _ => {
+            // delete one character
+            if chars.is_empty() {
+                frag
+            } else {
+                let i = r.below(chars.len() as u64) as usize;
+                chars.iter().enumerate().filter(|(k, _)| *k != i).map(|(_, c)| *c).collect()
+            }
+        }
+    }
+}
+
+/// trust-anchor files (`. 172800 IN DNSKEY 257 3 8 <base64>`), valid and mutated, upper case only where
+/// the known debug-assert finding would fire otherwise (that one has its own corpus lines)
+fn tanchor_case(r: &mut Rng) -> String {
+    let mut toks: Vec<String> = ["example.com.", "172800", "IN", "DNSKEY", "257", "3", "8", "AwEAAagAIKlVZrpC6Ia7gEzahOR+9W29euxhJhVVLOyQbSEW0O8gcCjF", "FVQUTf6v58fLjwBd0YI0EzrAcQqBGCzh/RStIoO8g0NfnfL2MTJRkxoX"]
+        .iter()
+        .map(|s| s.to_string())
+        .collect();
+    for _ in 0..r.below(3) {
+        let i = r.below(toks.len() as u64) as usize;
+        let f = fuzz_token(r, &toks[i].clone());
+        // class and type position: keep clear of the known finding
+        toks[i] = if (1..4).contains(&i) { f.to_ascii_uppercase() } else { f };
+    }
+    if r.chance(1, 4) {
+        toks.remove(1);
+    }
+    let mut text = toks.join(if r.chance(1, 8) { "\t" } else { " " });
+    if r.chance(1, 4) {
+        text = format!("; comment\n\n{text}");
+    }
+    if r.chance(9, 10) {
+        text.push('\n');
+    }
+    format!("tanchor {}", hex(text.as_bytes()))
+}
+
+fn rdata_fuzz_case(r: &mut Rng, rec: &mut Recorder) -> String {
+    let (ty, samples) = *r.pick(RDATA_SAMPLES);
+    rec.stat(&format!("rdata-fuzz.type.{ty}"));
+    let mut toks: Vec<String> = r.pick(samples).iter().map(|s| s.to_string()).collect();
+    let nmut = match r.below(10) {
+        0 => 0,
+        1..=6 => 1,
+        7 | 8 => 2,
+        _ => 3,
+    };
+    for _ in 0..nmut {
+        match r.below(8) {
+            0 if !toks.is_empty() => {
+                let i = r.below(toks.len() as u64) as usize;
+                toks.remove(i);
+            }
+            1 if !toks.is_empty() => {
+                let i = r.below(toks.len() as u64) as usize;
+                let t = toks[i].clone();
+                toks.insert(i, t);
+            }
+            2 if toks.len() > 1 => {
+                let i = r.below(toks.len() as u64) as usize;
+                let j = r.below(toks.len() as u64) as usize;
+                toks.swap(i, j);
+            }
+            3 => {
+                let i = r.below(toks.len() as u64 + 1) as usize;
+                toks.insert(i, r.pick(FUZZ_FRAGS).to_string());
+            }
+            _ => {
+                if toks.is_empty() {
+                    toks.push(r.pick(FUZZ_FRAGS).to_string());
+                } else {
+                    let i = r.below(toks.len() as u64) as usize;
+                    toks[i] = fuzz_token(r, &toks[i].clone());
+                }
+            }
+        }
+    }
+    let ty = match r.below(6) {
+        0 => ty.to_ascii_lowercase(),
+        _ => ty.to_string(),
+    };
+    let class = *r.pick(&["", "", "IN ", "CH ", "in "]);
+    let sep = if r.chance(1, 10) { "\t" } else { " " };
+    let mut text = format!("a 60 {class}{ty}");
+    let paren = r.chance(1, 10);
+    if paren {
+        text.push_str(" (");
+    }
+    for t in &toks {
+        text.push_str(sep);
+        text.push_str(t);
+    }
+    if paren && r.chance(3, 4) {
+        text.push_str(" )");
+    }
+    if r.chance(9, 10) {
+        text.push('\n');
+    }
+    let origin = GName(vec![b"example".to_vec(), b"com".to_vec()]);
+    // the Lean model appends character by character (quadratic): very long tokens go to the
+    // implementation only (the size corpus covers long tokens on the model side up to 10 000)
+    case_line(if text.len() > 5000 { "i" } else { "m" }, &origin, &text, None)
+}
+
+// ------------------------------------------------------------------------------------------------
 // generator: malformed stream
 
 fn mutate(r: &mut Rng, text: &str) -> String {
@@ -1724,7 +2011,7 @@ fn adversarial() -> Vec<String> {
 }
 
 pub fn run(o: &Opts, rec: &mut Recorder) {
-    rec.rule = "zone texts: (a) random record sets of A/AAAA/NS/CNAME/PTR/ANAME/MX/SOA/SRV/TXT/HINFO/CAA printed by an independent RFC 1035 §5 printer with per-line random layout, (a') names at the length limits (253-256 octets, labels of 63/64) written absolutely and origin-relative in every name position, and the same relative names repeated across $ORIGIN changes, (a'') records with hex / base64 data split at random offsets over parenthesised lines, and parenthesis edge cases (several groups, parentheses in strings and comments, nesting, groups open at the end), (b) mutations of those, (c) token soup, repeated RRset edits and garbage; a case is non-trivial when the text loaded to >= 1 record or is a malformed-stream text of >= 10 characters; distinct by case line".into();
+    rec.rule = "zone texts: (a) random record sets of A/AAAA/NS/CNAME/PTR/ANAME/MX/SOA/SRV/TXT/HINFO/CAA printed by an independent RFC 1035 §5 printer with per-line random layout, (a') names at the length limits (253-256 octets, labels of 63/64) written absolutely and origin-relative in every name position, and the same relative names repeated across $ORIGIN changes, (a'') records with hex / base64 data split at random offsets over parenthesised lines, and parenthesis edge cases (several groups, parentheses in strings and comments, nesting, groups open at the end), (b) mutations of those, (b') per-type RDATA text fuzz: for every record type the parser knows a valid RDATA text mutated at token level with fragments aimed at the type's mini-grammar, (c) token soup, repeated RRset edits and garbage; a case is non-trivial when the text loaded to >= 1 record or is a malformed-stream text of >= 10 characters; distinct by case line".into();
     for l in o.pre_lines.clone() {
         exec(&l, rec);
     }
@@ -1804,5 +2091,17 @@ pub fn run(o: &Opts, rec: &mut Recorder) {
                 exec(&case_line("m", &origin, &garbage(&mut r), None), rec);
             }
         }
+    }
+    // per-type RDATA text fuzz (its own PRNG stream, so that the cases above do not move)
+    let mut r2 = Rng::new(o.seed ^ 0x5244_4154_4146_555a);
+    for _ in 0..o.n(4000, 200_000) {
+        rec.stat("stream.rdata-fuzz");
+        let line = rdata_fuzz_case(&mut r2, rec);
+        exec(&line, rec);
+    }
+    for _ in 0..o.n(300, 20_000) {
+        rec.stat("stream.trust-anchor-fuzz");
+        let line = tanchor_case(&mut r2);
+        exec(&line, rec);
     }
 }
